@@ -5,13 +5,13 @@ set -u
 WT=$1; SD=$2
 cd "$WT" || exit 2
 git checkout -q -- . && git checkout -q --detach "$(git -C /repo rev-parse HEAD)" || exit 2
-echo "== demo on clean HEAD"; bash "$SD/demo.sh" "$WT" >/tmp/seed_demo_clean.log 2>&1; RC_CLEAN=$?
+echo "== demo on clean HEAD"; bash "$SD/demo.sh" "$WT" >/tmp/seed_demo_clean.$$.log 2>&1; RC_CLEAN=$?
 git apply "$SD/patch.diff" || { echo "PATCH DOES NOT APPLY"; exit 3; }
 echo "== tests with change"
 # (a worktree that was moved keeps test binaries with the old path baked in: force the one snapshot-reading test crate to rebuild - mtime only)
 touch prqlc/prqlc-parser/src/test.rs 2>/dev/null
 export CARGO_INCREMENTAL=0
-CARGO_NET_OFFLINE=true cargo nextest run --workspace --no-fail-fast --tool-config-file pb:/w/lib/nextest.toml --profile pb --test-threads 8 --offline 2>&1 | tail -3 | tee /tmp/seed_tests.log
-echo "== demo with change"; bash "$SD/demo.sh" "$WT" >/tmp/seed_demo_patched.log 2>&1; RC_PATCHED=$?
+CARGO_NET_OFFLINE=true cargo nextest run --workspace --no-fail-fast --tool-config-file pb:/w/lib/nextest.toml --profile pb --test-threads 8 --offline 2>&1 | tail -3 | tee /tmp/seed_tests.$$.log
+echo "== demo with change"; bash "$SD/demo.sh" "$WT" >/tmp/seed_demo_patched.$$.log 2>&1; RC_PATCHED=$?
 git checkout -q -- .
-echo "RESULT clean_demo_rc=$RC_CLEAN patched_demo_rc=$RC_PATCHED tests: $(grep -o '[0-9]* passed' /tmp/seed_tests.log | head -1)"
+echo "RESULT clean_demo_rc=$RC_CLEAN patched_demo_rc=$RC_PATCHED tests: $(grep -o '[0-9]* passed' /tmp/seed_tests.$$.log | head -1)"
